@@ -63,7 +63,7 @@ CHECKS = {
              text="Exploration: random nests (dict/list/tuple/namedtuple, rank 0-3, bool/int/float) and stacked real states of the 23 environments through transpose/slice/add_element/is_equal_pytree/assert helpers, judged by NumPy oracles.",
              note="NaN leaves are not generated.", ref="§3 C19"),
 }
-READY = ["C01", "C02", "C03", "C13", "C14", "C15", "C16", "C17", "C18", "C19"]
+READY = [f"C{i:02d}" for i in range(1, 20)]
 PENDING_REASON = "check not implemented yet in this revision of /verif (runtime monitor planned in DESIGN.md §3); not claimed until it runs silent on the unchanged tree"
 
 def main():
